@@ -22,7 +22,7 @@ from lbry.schema.support import Support
 from lbry.crypto.base58 import Base58
 
 import ecdsa
-from ecdsa.util import sigdecode_der, sigdecode_string
+from ecdsa.util import sigdecode_der, sigdecode_string, sigencode_string_canonize
 
 import vlib
 
@@ -612,7 +612,23 @@ def mutate_wire_payload(run, env, rng, raw, pos, kind, channel, pub):
     return None
 
 
-def check_sign_sequences(run, env, rng, idx):
+def rfc6979_sign(sk, digest):
+    """independent signer (pure-Python ecdsa, RFC 6979 nonce, low-s): what the model's `sign` stands for"""
+    key = ecdsa.SigningKey.from_string(sk, curve=ecdsa.SECP256k1)
+    return key.sign_digest_deterministic(digest, hashfunc=hashlib.sha256, sigencode=sigencode_string_canonize)
+
+
+def obj_state(txo, ledger):
+    s = txo.signable
+    st = {'legacy': s.unsigned_payload.hex() if s.unsigned_payload else None,
+          'sig': s.signature.hex() if s.signature is not None else None,
+          'ch': (s.signing_channel_hash or b'').hex(), 'msg': s.to_message_bytes().hex()}
+    if s.signature is not None:
+        st['digest'] = txo.get_signature_digest(ledger).hex()
+    return st
+
+
+def check_sign_sequences(run, model, env, rng, idx):
     """one claim OBJECT through a history of sign / clear_signature / edit / re-read operations, starting fresh, from a
     current-format signed transaction or from a transaction signed by an earlier release: after every step the object
     validates against exactly the channel that signed it last, unless it was edited since"""
@@ -642,6 +658,11 @@ def check_sign_sequences(run, env, rng, idx):
     n_ops = rng.randrange(2, 7)
     case = {'kind': 'sign-sequence', 'index': idx, 'start': start, 'ops': ops}
     bad = None
+    first = tx.inputs[0].txo_ref
+    start_state = obj_state(txo, env.ledger)
+    start_state.pop('digest', None)
+    addr = Base58.decode(txo.get_address(env.ledger))
+    mops, impl_states = [], []
     for step in range(n_ops):
         choices = ['sign:A', 'sign:B', 'clear', 'clear-signable', 'reread']
         if not (start == 'legacy-signed' and not any(o.startswith('sign') for o in ops)):
@@ -654,20 +675,30 @@ def check_sign_sequences(run, env, rng, idx):
             txo.sign(chans[op[5:]])
             tx._reset()
             signer, dirty = op[5:], False
+            mops.append({'op': 'sign', 'sk': chans[op[5:]].private_key.private_key_bytes.hex(),
+                         'ch': chans[op[5:]].claim_hash.hex()})
         elif op == 'clear':
             txo.clear_signature()
             signer, dirty = None, False
+            mops.append({'op': 'clear'})
         elif op == 'clear-signable':
             txo.signable.clear_signature()
             signer, dirty = None, False
+            mops.append({'op': 'clear'})
         elif op == 'edit':
             txo.claim.stream.title = txo.claim.stream.title + '!'
             dirty = dirty or signer is not None
+            mops.append({'op': 'edit', 'm': txo.signable.to_message_bytes().hex()})
         elif op == 'reread':
             txo.script.generate()
             tx._reset()
             tx = Transaction(tx.raw)
             txo = tx.outputs[0]
+            mops.append({'op': 'reread'})
+        try:
+            impl_states.append(obj_state(txo, env.ledger))
+        except Exception as e:  # noqa
+            impl_states.append({'error': type(e).__name__})
         if signer is None:
             if txo.signable.is_signed:
                 bad = f'after {ops} the claim still reports a signature although it was cleared'
@@ -692,6 +723,16 @@ def check_sign_sequences(run, env, rng, idx):
     run.count('sign-sequence:' + start)
     if bad:
         run.violation(case, bad, signature={'kind': 'sign-sequence', 'start': start, 'ops': ops})
+    else:
+        mod = model.call('obj_run', txhash=first.tx_ref.hash.hex(), pos=first.position, addr=addr.hex(),
+                         start=start_state, ops=mops)
+        mod_states = []
+        for m in mod:
+            st = {'legacy': m['legacy'], 'sig': m['sig'], 'ch': m['ch'], 'msg': m['msg']}
+            if m['sig'] is not None:
+                st['digest'] = sha256(bytes.fromhex(m['pieces'])).hex()
+            mod_states.append(st)
+        run.compare('C04.object_history', case, impl_states, mod_states)
 
 
 def check_legacy(run, model, env, rng):
@@ -838,7 +879,7 @@ def main(run):
     loop = asyncio.new_event_loop()
     asyncio.set_event_loop(loop)
     env = Env(loop)
-    model = vlib.Model('C04')
+    model = vlib.Model('C04', oracles={'sha256': sha256, 'sign': rfc6979_sign})
     rng = run.rng
     run.rule = ('input signatures: transactions with 1..20 inputs spending P2PKH outputs of a real HD account (outpoint '
                 'positions 0/1/2/7, random sequences, versions, locktimes) and 1..11 outputs of every kind, signed by '
@@ -862,7 +903,7 @@ def main(run):
         for i in range(vlib.scaled(run.tier, 60, 1200)):
             check_input_signatures(run, model, env, rng, i)
         for i in range(vlib.scaled(run.tier, 40, 800)):
-            check_sign_sequences(run, env, rng, i)
+            check_sign_sequences(run, model, env, rng, i)
         for i in range(vlib.scaled(run.tier, 40, 800)):
             check_channel_signature(run, model, env, rng, i, 'support' if i % 4 == 3 else 'claim')
     finally:
